@@ -213,6 +213,11 @@ func (a *aofRun) boot(dir string) bool {
 	inst, err := a.s.Boot(id, cfg)
 	harnessEnvCheck(err)
 	if err != nil || inst.Panic != "" {
+		if os.Getenv("DSIM_DEBUG_BOOT") != "" {
+			lb, _ := os.ReadFile(filepath.Join(dir, "aof", "log.aof"))
+			pb, _ := os.ReadFile(filepath.Join(dir, "aof", "preamble.bin"))
+			fmt.Printf("BOOTFAIL log.aof (%d bytes): %q\nBOOTFAIL preamble.bin (%d bytes): %q\n", len(lb), lb, len(pb), pb)
+		}
 		a.fail("restore-error/boot", fmt.Sprintf("instance construction on the recovered directory failed: %v %s", err, inst.Panic))
 		return false
 	}
